@@ -14,6 +14,7 @@ import (
 	"runtime"
 	"runtime/debug"
 	"strings"
+	"unsafe"
 )
 
 // Point kinds.
@@ -71,6 +72,8 @@ type abortSentinel struct{}
 
 // IsAbort reports whether a recovered panic value is the scheduler's own
 // unwinding signal. Harness code that recovers panics must re-panic it.
+//
+//go:norace
 func IsAbort(v interface{}) bool {
 	_, ok := v.(abortSentinel)
 	return ok
@@ -89,6 +92,7 @@ type exec struct {
 	budget   int
 	envOn    bool
 	raceOn   bool
+	quiet    bool // setup phase: default choices, nothing recorded
 }
 
 var cur *exec
@@ -101,13 +105,19 @@ type Options struct {
 
 // Active reports whether an execution is in progress (shims fall back to
 // trivial single-threaded behaviour otherwise).
+//
+//go:norace
 func Active() bool { return cur != nil && !cur.aborting }
 
 // Aborting reports whether the current execution is being unwound.
+//
+//go:norace
 func Aborting() bool { return cur != nil && cur.aborting }
 
 // Run executes body as thread 0 under the scheduler, replaying prefix and
 // taking alternative 0 afterwards.
+//
+//go:norace
 func Run(prefix []int, opt Options, body func()) *Result {
 	if cur != nil {
 		panic("sched: nested Run")
@@ -175,26 +185,30 @@ func Run(prefix []int, opt Options, body func()) *Result {
 	return e.res
 }
 
+//go:norace
 func (e *exec) newThread(name string, daemon bool, fn func()) *thread {
 	t := &thread{id: len(e.threads), name: name, wake: make(chan struct{}, 1), daemon: daemon, fn: fn}
 	e.threads = append(e.threads, t)
 	return t
 }
 
+//go:norace
 func (e *exec) root(t *thread) {
-	defer func() {
-		if r := recover(); r != nil && !IsAbort(r) {
-			e.res.Panics = append(e.res.Panics, PanicInfo{Thread: t.name, Value: fmt.Sprint(r), Stack: trimStack(string(debug.Stack()))})
-			t.done = true
-			e.signalFinish()
-		}
-		e.exitCh <- t
-	}()
-	<-t.wake
+	defer e.rootExit(t)
+	if e.raceOn {
+		raceDisable()
+		<-t.wake
+		raceEnable()
+	} else {
+		<-t.wake
+	}
 	if e.aborting {
 		return
 	}
 	t.fn()
+	if e.raceOn {
+		ReleaseMerge(unsafe.Pointer(t))
+	}
 	t.done = true
 	if e.aborting {
 		return
@@ -203,6 +217,23 @@ func (e *exec) root(t *thread) {
 	e.next(t)
 }
 
+//go:norace
+func (e *exec) rootExit(t *thread) {
+	if r := recover(); r != nil && !IsAbort(r) {
+		e.res.Panics = append(e.res.Panics, PanicInfo{Thread: t.name, Value: fmt.Sprint(r), Stack: trimStack(string(debug.Stack()))})
+		t.done = true
+		e.signalFinish()
+	}
+	if e.raceOn {
+		raceDisable()
+		e.exitCh <- t
+		raceEnable()
+		return
+	}
+	e.exitCh <- t
+}
+
+//go:norace
 func trimStack(s string) string {
 	lines := strings.Split(s, "\n")
 	var out []string
@@ -218,6 +249,7 @@ func trimStack(s string) string {
 	return strings.Join(out, "\n")
 }
 
+//go:norace
 func (e *exec) signalFinish() {
 	if !e.finished {
 		e.finished = true
@@ -225,6 +257,7 @@ func (e *exec) signalFinish() {
 	}
 }
 
+//go:norace
 func (e *exec) allUserDone() bool {
 	for _, t := range e.threads {
 		if !t.daemon && !t.done {
@@ -236,6 +269,8 @@ func (e *exec) allUserDone() bool {
 
 // enabled returns the enabled threads in canonical order: the running thread
 // first if it is enabled, then ascending ids.
+//
+//go:norace
 func (e *exec) enabled(t *thread) ([]*thread, bool) {
 	var out []*thread
 	runningEnabled := t != nil && !t.done && !t.blocked && !t.spin && !t.yield
@@ -251,7 +286,11 @@ func (e *exec) enabled(t *thread) ([]*thread, bool) {
 	return out, runningEnabled
 }
 
+//go:norace
 func (e *exec) choose(kind byte, n int, runningEnabled bool, label string) int {
+	if e.quiet {
+		return 0
+	}
 	idx := len(e.res.Points)
 	c := 0
 	if idx < len(e.prefix) {
@@ -273,6 +312,8 @@ func (e *exec) choose(kind byte, n int, runningEnabled bool, label string) int {
 // next picks the next thread to run and transfers control. Called by the
 // running thread t (which may be done or blocked). Returns when t is
 // scheduled again; panics with the abort sentinel if the execution is over.
+//
+//go:norace
 func (e *exec) next(t *thread) {
 	if e.allUserDone() {
 		e.signalFinish()
@@ -329,14 +370,11 @@ func (e *exec) next(t *thread) {
 		}
 	}
 	e.running = pick
-	if !pick.started {
-		pick.started = true
-		go e.root(pick)
-	}
 	e.handoff(pick)
 	e.park(t)
 }
 
+//go:norace
 func (e *exec) handoff(to *thread) {
 	if e.raceOn {
 		raceDisable()
@@ -348,6 +386,8 @@ func (e *exec) handoff(to *thread) {
 }
 
 // park waits until t is scheduled again.
+//
+//go:norace
 func (e *exec) park(t *thread) {
 	if t.done {
 		return // thread root returns and the goroutine exits
@@ -365,6 +405,8 @@ func (e *exec) park(t *thread) {
 }
 
 // Step is a scheduling point: the running thread offers to be preempted.
+//
+//go:norace
 func Step(label string) {
 	e := cur
 	if e == nil {
@@ -395,10 +437,6 @@ func Step(label string) {
 		}
 	}
 	e.running = pick
-	if !pick.started {
-		pick.started = true
-		go e.root(pick)
-	}
 	e.handoff(pick)
 	e.park(t)
 }
@@ -406,6 +444,8 @@ func Step(label string) {
 // Block disables the running thread until Unblock(obj) is called by another
 // thread, then returns once it is scheduled again. While the execution is
 // being unwound it panics with the abort sentinel instead of blocking.
+//
+//go:norace
 func Block(obj interface{}, label string) {
 	e := cur
 	if e == nil {
@@ -420,6 +460,8 @@ func Block(obj interface{}, label string) {
 }
 
 // Unblock enables every thread blocked on obj.
+//
+//go:norace
 func Unblock(obj interface{}) {
 	e := cur
 	if e == nil {
@@ -433,6 +475,8 @@ func Unblock(obj interface{}) {
 }
 
 // UnblockThread enables one specific thread (by id) blocked on obj.
+//
+//go:norace
 func UnblockThread(id int, obj interface{}) {
 	e := cur
 	if e == nil {
@@ -445,6 +489,8 @@ func UnblockThread(id int, obj interface{}) {
 }
 
 // Self returns the id of the running thread (0 outside of an execution).
+//
+//go:norace
 func Self() int {
 	if cur == nil || cur.running == nil {
 		return 0
@@ -453,6 +499,8 @@ func Self() int {
 }
 
 // SelfName returns the name of the running thread.
+//
+//go:norace
 func SelfName() string {
 	if cur == nil || cur.running == nil {
 		return "main"
@@ -463,6 +511,8 @@ func SelfName() string {
 // Choose records an environment choice with n alternatives; alternative 0 is
 // the default answer. Without an execution, or with environment choices off,
 // it returns 0 and records nothing.
+//
+//go:norace
 func Choose(n int, label string) int {
 	e := cur
 	if e == nil || e.aborting || !e.envOn || n <= 1 {
@@ -473,15 +523,20 @@ func Choose(n int, label string) int {
 
 // Spawn starts a new harness thread (not a daemon): the execution is not over
 // before it has finished. Returns its id.
+//
+//go:norace
 func Spawn(name string, fn func()) int {
 	return spawn(name, false, fn)
 }
 
 // Go starts a library goroutine (a daemon: the execution ends without it).
+//
+//go:norace
 func Go(name string, fn func()) int {
 	return spawn(name, true, fn)
 }
 
+//go:norace
 func spawn(name string, daemon bool, fn func()) int {
 	e := cur
 	if e == nil {
@@ -492,15 +547,17 @@ func spawn(name string, daemon bool, fn func()) int {
 		return -1
 	}
 	t := e.newThread(name, daemon, fn)
-	if e.raceOn {
-		raceRelease(t)
-	}
+	// the goroutine is created by the spawner (correct happens-before edge) and parks until scheduled
+	t.started = true
+	go e.root(t)
 	return t.id
 }
 
 type joinKey struct{ id int }
 
 // Join blocks until thread id has finished.
+//
+//go:norace
 func Join(id int) {
 	e := cur
 	if e == nil || id < 0 {
@@ -510,14 +567,20 @@ func Join(id int) {
 	for !e.threads[id].done {
 		Block(joinKey{id}, fmt.Sprintf("join(%s)", e.threads[id].name))
 	}
+	if e.raceOn {
+		Acquire(unsafe.Pointer(e.threads[id]))
+	}
 }
 
+//go:norace
 func (e *exec) wakeJoiners(t *thread) {
 	Unblock(joinKey{t.id})
 }
 
 // YieldSpin is for polling loops in harness code: the caller is disabled until
 // some other thread has taken a step, so a poll loop does not unroll.
+//
+//go:norace
 func YieldSpin(label string) {
 	e := cur
 	if e == nil {
@@ -542,6 +605,8 @@ func YieldSpin(label string) {
 // LetOthersRun disables the caller until every other thread is blocked or
 // finished (used to let the library's background writer drain its queue at a
 // chosen moment).
+//
+//go:norace
 func LetOthersRun() {
 	e := cur
 	if e == nil {
@@ -557,7 +622,19 @@ func LetOthersRun() {
 	t.yield = false
 }
 
+// Quiet switches choice recording off (setup phases of a scenario run under
+// the default schedule and contribute no choice points) or on again.
+//
+//go:norace
+func Quiet(on bool) {
+	if cur != nil {
+		cur.quiet = on
+	}
+}
+
 // ThreadCount returns the number of threads created so far.
+//
+//go:norace
 func ThreadCount() int {
 	if cur == nil {
 		return 1
@@ -566,6 +643,8 @@ func ThreadCount() int {
 }
 
 // StepCount returns the number of scheduling points passed so far.
+//
+//go:norace
 func StepCount() int {
 	if cur == nil {
 		return 0
@@ -574,6 +653,8 @@ func StepCount() int {
 }
 
 // PointCount returns the number of choice points recorded so far.
+//
+//go:norace
 func PointCount() int {
 	if cur == nil {
 		return 0
